@@ -225,17 +225,7 @@ def SitesOk (e : Expr) : Prop := ((siteLens e).map (·.1)).Nodup ∧ ∀ p ∈ s
 /-- `SitesOk` for every named function of the program -/
 def SitesUnique (P : Prog) : Prop := ∀ d ∈ P.fns, SitesOk d.body
 
-/-! ### measures for the evidence -/
-
-mutual
-def countCells : List LCell → Nat
-  | [] => 0
-  | c :: cs => countCell c + countCells cs
-def countCell : LCell → Nat
-  | .mem _ => 1
-  | .delay _ _ => 1
-  | .child _ _ cells => 1 + countCells cells
-end
+/-! ### measure for the evidence -/
 
 mutual
 def countDelays : List LCell → Nat
@@ -245,17 +235,6 @@ def countDelay : LCell → Nat
   | .mem _ => 0
   | .delay _ _ => 1
   | .child _ _ cells => countDelays cells
-end
-
-mutual
-/-- nesting depth of child cells -/
-def depthCells : List LCell → Nat
-  | [] => 0
-  | c :: cs => max (depthCell c) (depthCells cs)
-def depthCell : LCell → Nat
-  | .mem _ => 0
-  | .delay _ _ => 0
-  | .child _ _ cells => 1 + depthCells cells
 end
 
 end Mimium.Publish
